@@ -562,7 +562,7 @@ func TestVF_C25(t *testing.T) {
 		"oracle: per tenant and series index, labels, samples (bitwise), histograms (every field vs. the protobuf path's prompb->model conversion of the input) and exemplars are equal. distinct = hash of the request; non-trivial = at least one series")
 	r.Assume("series and exemplar labels are sorted by name with unique non-empty names (what remote write delivers); exemplar HasTs is not part of the encoding and is not compared")
 	r.Assume("reference for histograms = prompb.HistogramProtoToHistogram / FloatHistogramProtoToFloatHistogram (the conversions the protobuf replication path applies)")
-	n := r.N(3000, 120000)
+	n := r.N(3000, 100000)
 	r.Require(int64(4*n), n/2)
 
 	// in-memory RPC: real client, monitor-side Writer server
